@@ -1,5 +1,5 @@
 (* C08 — commit releases exactly the unused part of the pre-authorisation.  Statements only. *)
-From Zvt Require Import Base Length Cp437 Encoding Codec Lookup CanonClass Client ClientProps ClientWire SpecCheck.
+From Zvt Require Import Base Length Cp437 Encoding Codec Lookup EnumProps CanonClass Transport Sequence SeqLookup Client ClientProps ClientLog ClientWire SpecCheck.
 From Zvt.gen Require Tables.
 From Zvt.spec Require Spec.
 Open Scope N_scope.
@@ -68,6 +68,50 @@ Theorem C08_requests_in_class : forall rn am cur tok pl,
   (exists b, canon_cmd (cmd_of "zvt::packets::Reservation") (reservation_value am cur tok) = Some b).
 Proof. exact requests_in_class. Qed.
 
+(* the summary handed back reproduces what the terminal reported: when the replies to the partial reversal (any number, the
+   serialisations of class values, the last one final) are what arrives, and the call returns a summary at all, its five fields
+   are those of the LAST status information among these replies, and none of the replies was an abort *)
+Theorem C08_summary_is_the_last_status_reported : forall cfg st tok amount rn w id xs rest final sm,
+  let cmd := mk_cmd "zvt::packets::PartialReversal" []
+               [(135, VSome (VInt rn)); (73, VSome (VInt (c_currency cfg))); (4, VSome (VInt (c_amount cfg - amount))); (25, VSome (VInt 64)); (6, bmp60 tok)] in
+  let q := seq_of "zvt::sequences::PartialReversal" cmd in
+  let ixa := variant_ix "zvt::sequences::PartialReversalResponse" "PartialReversalAbort" in
+  let ixs := variant_ix "zvt::sequences::PartialReversalResponse" "StatusInformation" in
+  assoc_tok tok (s_txs st) = Some rn -> w_cur w = Some id -> valid_id w id -> settled (get_conn w id) ->
+  q_mode q = Loop final ->
+  k_buf (get_conn w id) = [128; 0; 0] ++ concat (map x_bytes xs) ++ rest ->
+  Forall (reply_ok (q_replies q)) xs -> xs <> nil ->
+  (forall pre x post, xs = pre ++ x :: post -> final (fst (x_item x)) = match post with nil => true | _ => false end) ->
+  (length xs < LOOPFUEL)%nat ->
+  fst (fst (commit_transaction cfg st tok amount w)) = ROk sm ->
+  exists v, fold_left (fun a iv => if fst iv =? ixs then Some (snd iv) else a) (map x_item xs) None = Some v /\
+            summary_of (Some v) = ROk sm /\ Forall (fun iv => fst iv <> ixa) (map x_item xs).
+Proof. exact commit_summary_is_the_last_status_reported. Qed.
+
+(* a concrete run of the model (kernel evaluation): two transactions open, the terminal answers the partial reversal with a
+   status information and the completion; the summary carries exactly the reported terminal id, amount, trace number, date, time *)
+Definition ex_status : value :=
+  VRec (build_rec (snd (layout_of "zvt::packets::StatusInformation")) []
+          [(39, VSome (VInt 0)); (4, VSome (VInt 1234)); (11, VSome (VInt 77)); (12, VSome (VInt 93001)); (13, VSome (VInt 517)); (41, VSome (VInt 52523535))]).
+Definition ex_reply (k : nat) (v : value) : bytes :=
+  match find_enum "zvt::sequences::PartialReversalResponse" with
+  | Some vs => match nth_error vs k with Some (_, c) => match canon_cmd c v with Some b => b | None => nil end | None => nil end
+  | None => nil
+  end.
+Definition ex_ixs : nat := N.to_nat (variant_ix "zvt::sequences::PartialReversalResponse" "StatusInformation").
+Definition ex_ixc : nat := N.to_nat (variant_ix "zvt::sequences::PartialReversalResponse" "CompletionData").
+Definition ex_w : world :=
+  {| w_conns := [{| k_queue := nil; k_close := true;
+                    k_buf := [128; 0; 0] ++ ex_reply ex_ixs ex_status ++ ex_reply ex_ixc (VRec (build_rec (snd (layout_of "zvt::packets::CompletionData")) [] [])) |}];
+     w_scripts := nil; w_cur := Some 0; w_now := 7; w_log := nil |}.
+Definition ex_cfg : config := {| c_serial := nil; c_terminal_id := nil; c_currency := 978; c_amount := 2500; c_read_card_timeout := 15; c_password := 0; c_max := 2 |}.
+Definition ex_st : cstate := {| s_txs := [([65], 5); ([66], 6)]; s_max := 2 |}.
+Example C08_ex_summary :
+  ex_reply ex_ixs ex_status <> nil /\
+  fst (fst (commit_transaction ex_cfg ex_st [65] 1000 ex_w)) =
+  ROk {| m_tid := Some 52523535; m_amount := Some 1234; m_trace := Some 77; m_date := Some 517; m_time := Some 93001 |}.
+Proof. split; [vm_compute; discriminate|vm_compute; reflexivity]. Qed.
+
 (* non-vacuity: an ASCII token is one of the tokens the theorems speak about *)
 Example C08_ex_token : token_ok [116; 111; 107; 45; 49] [116; 111; 107; 45; 49].
 Proof. exact token_ok_ex. Qed.
@@ -83,3 +127,4 @@ Print Assumptions C08_commit_releases_exactly_the_unused_part.
 Print Assumptions C08_begin_reserves_the_configured_amount.
 Print Assumptions C08_cancel_reverses_that_reservation.
 Print Assumptions C08_requests_in_class.
+Print Assumptions C08_summary_is_the_last_status_reported.
